@@ -279,3 +279,55 @@ func (s *Spec) MapNT(f func(string) string) *Spec {
 	}
 	return out
 }
+
+// Placed is a token with the position of its first character in a rendered text.
+type Placed struct {
+	Token
+	Offset, Line, Col int
+}
+
+// Render writes the tokens with sep(i) before token i (i = 0: leading text) and trailer after the last one,
+// and returns the text together with the position of every token. Separators are ASCII.
+func Render(toks []Token, sep func(i int) string, trailer string) (string, []Placed) {
+	var b strings.Builder
+	off, line, col := 0, 1, 1
+	emit := func(s string) {
+		b.WriteString(s)
+		for _, c := range s {
+			off++
+			if c == '\n' {
+				line++
+				col = 1
+			} else {
+				col++
+			}
+		}
+	}
+	placed := make([]Placed, len(toks))
+	for i, t := range toks {
+		emit(sep(i))
+		placed[i] = Placed{Token: t, Offset: off, Line: line, Col: col}
+		emit(t.Text)
+	}
+	emit(trailer)
+	return b.String(), placed
+}
+
+// TokensOfText tokenizes a text with the reference scanner and returns the tokens with their spelling.
+func TokensOfText(text string) ([]Token, error) {
+	lt, err := Tokenize(text)
+	if err != nil {
+		return nil, err
+	}
+	out := make([]Token, len(lt))
+	for i, t := range lt {
+		out[i] = Token{Kind: t.Kind, Lexeme: t.Lexeme, Text: t.Lexeme}
+		switch t.Kind {
+		case "STRING":
+			out[i].Text = `"` + t.Lexeme + `"`
+		case "REGEX":
+			out[i].Text = "/" + t.Lexeme + "/"
+		}
+	}
+	return out, nil
+}
